@@ -15,7 +15,8 @@ Definition mks (id : Z) (urls : list Z) (user : bool) (cr : Z) (credtype : Z) : 
      s_credtype := credtype |}.
 
 (* key type 0 nil/other, 1 RSA, 2 ECDSA; key identity; x509 identity; what
-   Expires() returns, in nanoseconds since 0001-01-01 00:00:00 UTC (0 = zero time) *)
+   Expires() returns, in nanoseconds since 0001-01-01 00:00:00 UTC (0 = zero
+   time); shown in whole seconds *)
 Definition mkcert (kt key x509 expires : Z) : cert :=
   {| c_ktype := match kt with 1 => KRsa | 2 => KEcdsa | _ => KNone end; c_key := key; c_x509 := x509;
      c_expires := expires |}.
@@ -24,7 +25,7 @@ Definition mkcert (kt key x509 expires : Z) : cert :=
    separately that it lies in the future *)
 Definition Vcert (c : cert) : V :=
   VL [VZ (match c_ktype c with KNone => 0 | KRsa => 1 | KEcdsa => 2 end); VZ (c_key c); VZ (c_x509 c);
-      VZ (if Z.eqb (c_x509 c) 100 then -1 else c_expires c)].
+      VZ (if Z.eqb (c_x509 c) 100 then -1 else Z.div (c_expires c) 1000000000)].
 
 Definition mkc (sv : list server) (pol bun mux : Z) (ident : string) (cs : list cert)
            (pl sem : Z) (dc : bool) : config :=
